@@ -1,4 +1,170 @@
-import AwModel.Store.Sqlite
-/-! # C03 — placeholder while the read theorems are being written (no claims yet) -/
+import AwProofs.Lemmas.StoreReads
+/-!
+# C03 — Time-window reads return exactly the intersecting events, newest first, limited
+
+Property theorems only (proofs are in `Lemmas/StoreReads.lean`). `st`/`en` of the backend read
+functions are the window bounds as the storage layer receives them; `Bucket.get` rounds the
+requested window first (`roundWin`: start floored to the millisecond, end floored plus one
+millisecond) — `window_tolerance` says what that costs: nothing inside the requested window is
+lost and nothing further than 1 ms outside it is admitted, well inside the property's "about 2 ms".
+`inWindow st en e` is the closed-interval test `st ≤ e.ts + e.dur ∧ e.ts ≤ en`.
+
+Hypotheses the proofs forced (each is at an excluded point where the real code was run, DESIGN §8 C03):
+* sqlite, no start bound: the statement filters `endtime >= 0`, so completeness needs the event to
+  end at or after the epoch (dates from 1970 on, as the property says);
+* peewee: the 24 h prefilter (events up to 24 h long, as the property says); the exact-arithmetic
+  range filter stands for SQLite's `julianday`/`strftime` expression, whose error (< 1 ms) is a
+  parameter compared tolerantly by the correspondence check.
+-/
 namespace AwProofs.C03
+open Aw Aw.Store
+variable {D : Type}
+
+/-- rounding of the requested window by `Bucket.get`: the start moves down by less than 1 ms -/
+theorem round_start (s : Int) (en : Option Int) (s' : Int)
+    (h : (roundWin (some s) en).1 = some s') : s' ≤ s ∧ s < s' + 1000 :=
+  roundWin_start_le s en s' h
+
+/-- … and the end moves up by at most 1 ms -/
+theorem round_end (st : Option Int) (e : Int) (e' : Int)
+    (h : (roundWin st (some e)).2 = some e') : e < e' ∧ e' ≤ e + 1000 :=
+  roundWin_end_ge st e e' h
+
+/-- edges are honoured to the store's millisecond resolution -/
+theorem window_tolerance (st en : Option Int) (x : Ev D) :
+    (inWindow st en x = true → inWindow (roundWin st en).1 (roundWin st en).2 x = true) ∧
+    (inWindow (roundWin st en).1 (roundWin st en).2 x = true →
+      (∀ a, st = some a → a - 1000 < x.ts + x.dur) ∧ (∀ z, en = some z → x.ts ≤ z + 1000)) :=
+  Aw.Store.window_tolerance st en x
+
+/-! ## sqlite -/
+
+/-- soundness: every returned event is a stored event of the bucket that reaches into the window -/
+theorem sound_sqlite (s : Sqlite.St D) (b : String) (limit : Int) (st en : Option Int) (x : Ev D)
+    (hx : x ∈ Sqlite.getEvents s b limit st en) :
+    ∃ m es, Sqlite.view s b = some (m, es) ∧ x ∈ es ∧ inWindow st en x = true ∧
+      (st = none → 0 ≤ x.ts + x.dur) :=
+  Sqlite.get_sound s b limit st en x hx
+
+/-- completeness (PARTIAL only in the epoch clause: without a start bound the event must end at or
+    after 1970) -/
+theorem complete_sqlite_partial (s : Sqlite.St D) (b : String) (limit : Int) (hl : limit < 0)
+    (st en : Option Int) (m : Meta) (es : List (Ev D)) (hv : Sqlite.view s b = some (m, es))
+    (e : Ev D) (he : e ∈ es) (hw : inWindow st en e = true)
+    (hpos : st = none → 0 ≤ e.ts + e.dur) :
+    e ∈ Sqlite.getEvents s b limit st en :=
+  Sqlite.get_complete_partial s b limit hl st en m es hv e he hw hpos
+
+/-- ordered by timestamp descending (ties by id descending) -/
+theorem sorted_desc_sqlite (s : Sqlite.St D) (b : String) (limit : Int) (st en : Option Int) :
+    List.Pairwise (fun a b => b.ts < a.ts ∨ (b.ts = a.ts ∧ ∀ i j, a.id = some i → b.id = some j → j ≤ i))
+      (Sqlite.getEvents s b limit st en) :=
+  Sqlite.get_sorted_lex s b limit st en
+
+/-- limit: 0 → none, positive → the newest `limit`, negative → all -/
+theorem limit_sqlite (s : Sqlite.St D) (b : String) (st en : Option Int) :
+    Sqlite.getEvents s b 0 st en = [] ∧
+    (∀ limit, 0 < limit → Sqlite.getEvents s b limit st en = (Sqlite.getEvents s b (-1) st en).take limit.toNat) ∧
+    (∀ limit, limit < 0 → Sqlite.getEvents s b limit st en = Sqlite.getEvents s b (-1) st en) :=
+  ⟨Sqlite.get_limit_zero s b st en, fun l hl => Sqlite.get_limit_pos s b l hl st en,
+   fun l hl => Sqlite.get_limit_neg s b l hl st en⟩
+
+/-- the count of a window is the number of events a read of the same window returns, and never
+    more than a read of the rounded window returns -/
+theorem count_agrees_sqlite (s : Sqlite.St D) (b : String) (st en : Option Int) :
+    Sqlite.getEventcount s b st en = (Sqlite.getEvents s b (-1) st en).length ∧
+    ((∀ m es, Sqlite.view s b = some (m, es) → ∀ e ∈ es, 0 ≤ e.ts + e.dur) →
+      Sqlite.getEventcount s b st en ≤ (Sqlite.getEvents s b (-1) (roundWin st en).1 (roundWin st en).2).length) :=
+  ⟨Sqlite.count_eq s b st en, Sqlite.count_le_get_rounded s b st en⟩
+
+/-! ## memory -/
+
+theorem sound_memory (s : Memory.St D) (b : String) (limit : Int) (st en : Option Int) (r : List (Ev D))
+    (hr : Memory.getEvents s b limit st en = .ok r) (x : Ev D) (hx : x ∈ r) :
+    ∃ m es, Memory.view s b = some (m, es) ∧ x ∈ es ∧ inWindow st en x = true :=
+  Memory.get_sound s b limit st en r hr x hx
+
+theorem complete_memory (s : Memory.St D) (b : String) (limit : Int) (hl : limit < 0) (st en : Option Int)
+    (m : Meta) (es : List (Ev D)) (hv : Memory.view s b = some (m, es))
+    (e : Ev D) (he : e ∈ es) (hw : inWindow st en e = true) :
+    ∃ r, Memory.getEvents s b limit st en = .ok r ∧ e ∈ r :=
+  Memory.get_complete s b limit hl st en m es hv e he hw
+
+theorem sorted_desc_memory (s : Memory.St D) (b : String) (limit : Int) (st en : Option Int) (r : List (Ev D))
+    (hr : Memory.getEvents s b limit st en = .ok r) :
+    List.Pairwise (fun a b => b.ts ≤ a.ts) r :=
+  Memory.get_sorted s b limit st en r hr
+
+theorem limit_memory (s : Memory.St D) (b : String) (st en : Option Int) :
+    (∀ r, Memory.getEvents s b 0 st en = .ok r → r = []) ∧
+    (∀ limit, 0 < limit → Memory.getEvents s b limit st en =
+        (Memory.getEvents s b (-1) st en).map (fun l => l.take limit.toNat)) ∧
+    (∀ limit, limit < 0 → Memory.getEvents s b limit st en = Memory.getEvents s b (-1) st en) :=
+  ⟨fun r hr => Memory.get_limit_zero s b st en r hr, fun l hl => Memory.get_limit_pos s b l hl st en,
+   fun l hl => Memory.get_limit_neg s b l hl st en⟩
+
+theorem count_agrees_memory (s : Memory.St D) (b : String) (st en : Option Int) :
+    Memory.getEventcount s b st en = (Memory.getEvents s b (-1) st en).map List.length ∧
+    (∀ n, Memory.getEventcount s b st en = .ok n →
+      ∃ r, Memory.getEvents s b (-1) (roundWin st en).1 (roundWin st en).2 = .ok r ∧ n ≤ r.length) :=
+  ⟨Memory.count_eq s b st en, fun n hn => Memory.count_le_get_rounded s b st en n hn⟩
+
+/-- a read or a count on a missing bucket raises KeyError, and only then -/
+theorem missing_memory (s : Memory.St D) (b : String) (limit : Int) (st en : Option Int) (e : Err) :
+    Memory.getEvents s b limit st en = .error e ↔ e = .keyError ∧ Memory.view s b = none :=
+  Memory.getEvents_error_iff s b limit st en e
+
+/-! ## peewee (the backend that clips); `dec` is the row decoder (identity, or the duration codec) -/
+
+/-- soundness with clipping: every returned event is a stored event that reaches into the window,
+    cut to the window, and nothing else -/
+theorem sound_peewee (s : Peewee.St D) (hc : Peewee.CacheOk s) (b : String) (limit : Int) (st en : Option Int)
+    (dec : Ev D → Ev D) (r : List (Ev D)) (hr : Peewee.getEvents s b limit st en dec = .ok r)
+    (x : Ev D) (hx : x ∈ r) :
+    ∃ m es e, Peewee.view s b = some (m, es) ∧ e ∈ es ∧ x = Peewee.clip st en (dec e) ∧
+      inWindow st en e = true ∧ (∀ a, st = some a → a - 86400000000 ≤ e.ts) :=
+  Peewee.get_sound s hc b limit st en dec r hr x hx
+
+/-- completeness for events up to 24 h long -/
+theorem complete_peewee (s : Peewee.St D) (hc : Peewee.CacheOk s) (b : String) (limit : Int) (hl : limit < 0)
+    (st en : Option Int) (dec : Ev D → Ev D) (m : Meta) (es : List (Ev D))
+    (hv : Peewee.view s b = some (m, es)) (e : Ev D) (he : e ∈ es) (hw : inWindow st en e = true)
+    (hd : e.dur ≤ 86400000000) :
+    ∃ r, Peewee.getEvents s b limit st en dec = .ok r ∧ Peewee.clip st en (dec e) ∈ r :=
+  Peewee.get_complete s hc b limit hl st en dec m es hv e he hw hd
+
+/-- the clipped event: same id and data, interval = stored interval ∩ window -/
+theorem peewee_clip (st en : Option Int) (e : Ev D) :
+    (Peewee.clip st en e).id = e.id ∧ (Peewee.clip st en e).data = e.data ∧
+    ((Peewee.clip st en e).ts = match st with | some a => max e.ts a | none => e.ts) ∧
+    ((Peewee.clip st en e).ts + (Peewee.clip st en e).dur =
+      match en with | some z => min (e.ts + e.dur) z | none => e.ts + e.dur) :=
+  Peewee.peewee_clip_exact st en e
+
+theorem sorted_desc_peewee (s : Peewee.St D) (b : String) (limit : Int) (st en : Option Int)
+    (dec : Ev D → Ev D) (hdec : ∀ e, (dec e).ts = e.ts) (r : List (Ev D))
+    (hr : Peewee.getEvents s b limit st en dec = .ok r) :
+    List.Pairwise (fun a b => b.ts ≤ a.ts) r :=
+  Peewee.get_sorted s b limit st en dec hdec r hr
+
+theorem limit_peewee (s : Peewee.St D) (b : String) (st en : Option Int) (dec : Ev D → Ev D) :
+    Peewee.getEvents s b 0 st en dec = .ok [] ∧
+    (∀ limit, 0 < limit → Peewee.getEvents s b limit st en dec =
+        (Peewee.getEvents s b (-1) st en dec).map (fun l => l.take limit.toNat)) ∧
+    (∀ limit, limit < 0 → Peewee.getEvents s b limit st en dec = Peewee.getEvents s b (-1) st en dec) :=
+  ⟨Peewee.get_limit_zero s b st en dec, fun l hl => Peewee.get_limit_pos s b l hl st en dec,
+   fun l hl => Peewee.get_limit_neg s b l hl st en dec⟩
+
+theorem count_agrees_peewee (s : Peewee.St D) (b : String) (st en : Option Int) (dec : Ev D → Ev D) :
+    Peewee.getEventcount s b st en = (Peewee.getEvents s b (-1) st en dec).map List.length ∧
+    (∀ n, Peewee.getEventcount s b st en = .ok n →
+      ∃ r, Peewee.getEvents s b (-1) (roundWin st en).1 (roundWin st en).2 dec = .ok r ∧ n ≤ r.length) :=
+  ⟨Peewee.count_eq s b st en dec, fun n hn => Peewee.count_le_get_rounded s b st en dec n hn⟩
+
+/-- the hypotheses are satisfiable: on a concrete two-event bucket a windowed read returns exactly
+    the intersecting event -/
+example : Memory.getEvents (D := Nat)
+    [("b", (default, [⟨some 0, 0, 5000, 1⟩, ⟨some 1, 10000, 1000, 2⟩]))] "b" (-1) (some 6000) none
+    = .ok [⟨some 1, 10000, 1000, 2⟩] := by rfl
+
 end AwProofs.C03
